@@ -36,6 +36,7 @@ TInv ==
 
 \* what a client can see of a completed call
 Seen(r) == CASE r.kind = "answer" -> "answer"
+             [] r.kind = "tc" -> "tc"
              [] r.kind = "badcookie" -> "badcookie"
              [] r.kind = "handoff" -> "handoff"
              [] r.kind \in {"drop", "edrop"} -> "silent"
